@@ -131,7 +131,7 @@ def R2_queue(ctx):
 def R3_dijkstra(ctx):
     """C02.R3 Dijkstra = weight 0; query override"""
     F = ctx.F
-    ctx.rule("C02.R3", "SearchAlgorithm::Dijkstra dispatches to the A* arm with Some(Cost::ZERO) in both orientations; the vertex-oriented A* arm takes weight_factor from the query when present, else the configured one", floor=4)
+    ctx.rule("C02.R3", "SearchAlgorithm::Dijkstra dispatches to the A* arm with Some(Cost::ZERO) in both orientations and its weight must not depend on the query; the vertex-oriented A* arm takes weight_factor from the query when present, else the configured one", floor=4)
     SA = astar.A + "search_algorithm::SearchAlgorithm"
     for fn in ("run_vertex_oriented", "run_edge_oriented"):
         b = F.need(SA + "::" + fn)
@@ -163,6 +163,12 @@ def R3_dijkstra(ctx):
                 crt = nosite(deep_strip(Terms(F.need(cl[0][1])).return_term()))
                 okc = crt == ("agg", "std::option::Option", "Some", (("0", ("call", COST + "::new", (("arg", 2),))),))
         ctx.check(okc, "weight:query-value", "the query's weight_factor is not passed as Some(Cost::new(value))", ra[0].where())
+    # Dijkstra must search with h = 0 whatever the query says.  It reaches run_a_star only by delegating to the A* arm of this
+    # same function (checked above): if that arm lets the query replace the weight, a query carrying "weight_factor" turns a
+    # configured Dijkstra into weighted A*, whose route need not be least-cost.
+    drows = [r for r in table(rv, max_paths=100000) if r.end == "return" and r.sel.get(("arg", 1)) == "Dijkstra"]
+    delegates = bool(drows) and all(r.ret[0] == "call" and r.ret[1] == SA + "::run_vertex_oriented" and r.ret[2][1:] and r.ret[2][3] == ("arg", 4) for r in drows)
+    ctx.check(not (delegates and len(q) >= 1), "dijkstra:run_vertex_oriented:query-weight-factor-reaches-the-heuristic", "SearchAlgorithm::Dijkstra delegates to the A* arm with the query unchanged, and that arm replaces the configured weight (ZERO) by query[\"weight_factor\"] when present: a configured Dijkstra search obeys a weight factor sent with the query and can return a route that is not least-cost", rv.where(), detail="Dijkstra => weight ZERO on every path")
     ctx.check([deep_strip(tm.operand(x, ra[0].bb)) for x in ra[0].args[:3]] == [("arg", 2), ("arg", 3), ("arg", 5)] and deep_strip(tm.operand(ra[0].args[4], ra[0].bb)) == ("arg", 6), "search-args", "run_a_star is not called with (source, destination, direction, weight, search instance) of this query", ra[0].where())
 
 
